@@ -1,4 +1,5 @@
 import PRV.Proofs.Session
+import PRV.Gen.C03
 /-
 C03 — The miner always hashes work that is valid for the pool it is assigned to.
 Theorems about the pool-notification handlers and the destination switch of `Model/Session.lean`,
@@ -146,5 +147,23 @@ theorem switch_miner_messages (s : Sess) (pool : String) (cb : Option Nat) (cbN 
             simp [Dest.key] at this ⊢
             exact ⟨this.1, this.2⟩
           · simp [Dest.key]
+
+
+/-! ### facts about `Proxy.setDest`, regenerated on every run -/
+
+/-- a change of destination is skipped as "the same" only when the whole url is the same (scheme, host, account *and*
+password: pools carry options in the password), and the parked connection's reader is stopped before anything is re-sent to
+the miner: what it would read meanwhile would be recorded and never relayed -/
+theorem source_setDest_shape :
+    PRV.Gen.C03.sameDestCond = "p.destURL.String() == newDestURL.String()" ∧
+    PRV.Gen.C03.setDestCalls = ["AutoReadStop", "connectNewDest", "StopDestToSource", "StopSourceToDest", "AutoReadStart",
+      "resendRelevantNotifications", "closeOldestConn", "SetDest", "StartSourceToDest", "StartDestToSource"] := by decide
+
+/-- in particular: both readers of the new destination are quiet (stopped, not yet started) while the miner is told about
+the switch, and the relay starts only afterwards — "before anything else from that pool" -/
+theorem resend_happens_with_readers_stopped :
+    (PRV.Gen.C03.setDestCalls.idxOf "AutoReadStop" < PRV.Gen.C03.setDestCalls.idxOf "resendRelevantNotifications") ∧
+    (PRV.Gen.C03.setDestCalls.idxOf "StopDestToSource" < PRV.Gen.C03.setDestCalls.idxOf "resendRelevantNotifications") ∧
+    (PRV.Gen.C03.setDestCalls.idxOf "resendRelevantNotifications" < PRV.Gen.C03.setDestCalls.idxOf "StartDestToSource") := by decide
 
 end PRV.Props.C03
